@@ -639,7 +639,8 @@ MANIFEST = {
             "Send side through a real pair: over-limit sendMessage raises PayloadExceededError, writes "
             "nothing and leaves later messages intact. Decompression cap: compressed messages at "
             "cap-1/cap/cap+1/3x/100x (1-2 frames, with and without context takeover) followed by "
-            "ordinary messages: nothing truncated or altered is ever delivered.",
+            "ordinary messages: nothing truncated or altered is ever delivered."
+            " After a refused send the receive limit of the same connection still holds; sends under compression are measured by the payload octets written.",
     "note": "Trusted: env transports, ref frame codec, zlib for building test messages. Payload "
             "contents are patterns; limits and sizes from the stated grid.",
     "technique": "exhaustive bounded enumeration of limit/size/fragmentation/delivery-point cases on "
